@@ -671,7 +671,7 @@ def r_fill(E):
                         f"{q}: bare `{norm(n)[:60]}` between two hourly frames aligns on the index and yields NaN "
                         f"where only one side has a value", rel, n.lineno, q))
     _FRAME_HELPERS[0] = None
-    res.floor = 3     # at least one per scanned function (4 on the pinned tree)
+    res.floor = 2     # the two operators; the occupancy function's sites when the frames are recognisable (4 on the pinned tree)
     return res
 
 
